@@ -34,7 +34,7 @@ structure VSys where
   elected : List (Nat × Nat)
 
 def grantOf : OMsg → Option Grant
-  | .grant t v c => some ⟨t, v, c⟩
+  | .grant t v c _ => some ⟨t, v, c⟩
   | _ => none
 
 def vproj (n : PNode) : VNode :=
